@@ -349,6 +349,13 @@ TExpectRenewed == IsEvent("ExpectRenewed") /\ UNCHANGED vars /\ Projected(Line.a
               \* key's that has no such objects itself)
               /\ Line.abs.keys[k].mft = mark[k].mft + KindsOfCa(mark[k].ca)
 
+\* The scheduler thread finishes a task it had claimed and processed before
+\* the events in between (StepHold ... Release): whatever those events
+\* scheduled -- also a task of the same name as the running one -- must
+\* still be in the queue (C09); applying the held result changes nothing
+\* that is due.
+TRelease == IsEvent("Release") /\ Ok /\ UNCHANGED vars /\ Projected(Line.abs)
+
 \* the harness found nothing left to do after a full refresh round
 TSettled == IsEvent("Settled") /\ UNCHANGED vars /\ Projected(Line.abs)
 
@@ -358,7 +365,7 @@ TraceNext ==
     \/ TChildUnsuspend \/ TChildUnsuspendNoop \/ TChildRemove
     \/ TChildMap \/ TRoaAdd \/ TRoaDel \/ TRtrAdd \/ TRtrDel \/ TRoaDelta \/ TAspaSet \/ TAspaDel \/ TRollInit \/ TRollInitNoop
     \/ TRollActivate \/ TRollActivateNoop \/ TDeleteCa \/ TRefresh
-    \/ TRefused \/ TStep \/ TSettled \/ TPubRemove \/ TPubAdd \/ TRepoSyncAll
+    \/ TRefused \/ TStep \/ TRelease \/ TSettled \/ TPubRemove \/ TPubAdd \/ TRepoSyncAll
     \/ TRepublish \/ TRenew \/ TRestart \/ TDueTouch \/ TRepublishByMargin \/ TExpectByMargin \/ TRepublishByStoreMargin \/ TExpectStoreByMargin \/ TMark \/ TExpectSame \/ TExpectReissued \/ TExpectRenewed
 
 TraceSpec == TraceInit /\ [][TraceNext]_tvars
@@ -422,12 +429,12 @@ C01_ManifestExact ==
 \* update every publication leaves in the task queue -- what is served (the
 \* RRDP snapshot the notification file names, the rsync tree) is the
 \* repository content
-C01_ServedIsContent ==
+C0109_ServedIsContent ==
     (l > 1 /\ Rec[l - 1].ev = "Settled")
         => rp.rrdpdiff = 0 /\ rp.rsyncdiff = 0
 
 TraceInvariant ==
-    /\ TypeOK /\ C01_ServedIsContent
+    /\ TypeOK /\ C0109_ServedIsContent
     /\ C03_RevokedWhileRelevant /\ C03_CurrentNotRevoked
     /\ C14_NumbersAgree /\ C14_ValidityContainsNow /\ C14_StorePublished
     /\ C01_ManifestExact
